@@ -184,10 +184,10 @@ impl SharedContext for SsrSharedContext {
         for error in mem::take(&mut *self.errors.write().or_poisoned()) {
             _ = write!(
                 initial_chunk,
-                "[{}, {}, {:?}],",
+                "[{}, {}, {}],",
                 error.0 .0,
                 error.1,
-                error.2.to_string()
+                js_string(&error.2.to_string())
             );
         }
         initial_chunk.push_str("];");
@@ -281,11 +281,11 @@ impl Stream for AsyncDataStream {
                     async_buf.push((id, fut));
                 }
                 Poll::Ready(data) => {
-                    let data = data.replace('<', "\\u003c");
                     _ = write!(
                         resolved,
-                        "__RESOLVED_RESOURCES[{}] = {:?};",
-                        id.0, data
+                        "__RESOLVED_RESOURCES[{}] = {};",
+                        id.0,
+                        js_string(&data)
                     );
                 }
             }
@@ -295,10 +295,10 @@ impl Stream for AsyncDataStream {
             if !sealed.contains(&error.0) {
                 _ = write!(
                     resolved,
-                    "__SERIALIZED_ERRORS.push([{}, {}, {:?}]);",
+                    "__SERIALIZED_ERRORS.push([{}, {}, {}]);",
                     error.0 .0,
                     error.1,
-                    error.2.to_string()
+                    js_string(&error.2.to_string())
                 );
             }
         }
@@ -320,8 +320,36 @@ struct ResolvedData(SerializedDataId, String);
 impl ResolvedData {
     pub fn write_to_buf(&self, buf: &mut String) {
         let ResolvedData(id, ser) = self;
-        // escapes < to prevent it being interpreted as another opening HTML tag
-        let ser = ser.replace('<', "\\u003c");
-        write!(buf, "{}: {:?}", id.0, ser).unwrap();
+        write!(buf, "{}: {}", id.0, js_string(ser)).unwrap();
     }
+}
+
+/// Formats a string as a JavaScript string literal that can be embedded in an inline
+/// `<script>`: the client reads back exactly `s`, and the literal contains no `<`.
+///
+/// Rust's `{:?}` output is almost a JavaScript string literal. Two things are fixed up in the
+/// *formatted* text (so that the backslashes written here are not escaped again):
+/// - `<` becomes `\u003c`, so that the literal cannot close the script element or open a comment
+///   or another tag;
+/// - `\0` becomes `\u0000`, because `\0` followed by a digit is a legacy octal escape in JavaScript.
+fn js_string(s: &str) -> String {
+    let formatted = format!("{s:?}");
+    let mut literal = String::with_capacity(formatted.len());
+    let mut chars = formatted.chars();
+    while let Some(c) = chars.next() {
+        match c {
+            '<' => literal.push_str("\\u003c"),
+            // an escape sequence written by `{:?}`: keep it, except for `\0`
+            '\\' => match chars.next() {
+                Some('0') => literal.push_str("\\u0000"),
+                Some(escaped) => {
+                    literal.push('\\');
+                    literal.push(escaped);
+                }
+                None => literal.push('\\'),
+            },
+            c => literal.push(c),
+        }
+    }
+    literal
 }
